@@ -261,6 +261,15 @@ fn gen(g: &mut G, thorough: bool) -> Plan {
                 }
             }
             p.scripts = vec![sc];
+            // (no draw) the same stall one hop later: a prompt redirect first, the pause on the connection that
+            // follows it - the deadline runs from the start of send(), whichever connection is stalled
+            if p.route == Route::Plain && (k + head_len) % 4 == 0 {
+                let mut redir = Script::default();
+                redir.acts.push(Act::Send(b"HTTP/1.1 307 Moved\r\nLocation: /hop1\r\nContent-Length: 0\r\n\r\n".to_vec()));
+                redir.acts.push(Act::Fin);
+                p.scripts.insert(0, redir);
+                g.probe("stall-on-the-connection-after-a-redirect");
+            }
             p.rereads = g.below(3) as usize;
             // the caller may lose interest while the peer is silent: the response is dropped after a few
             // reads, with data unread and the peer stalled (drawn last: earlier tapes keep their meaning)
@@ -764,9 +773,9 @@ fn oracle(p: &Plan, o: &Obs, h: &History, seen: &Seen, g: &mut G) -> Verdict {
             let t_last = o.calls.last().map(|c| c.t_out).unwrap_or(0);
             let delivered: usize = {
                 let mut n = 0usize;
-                if let Some(t0) = seen.times.first() {
+                if let Some(t0) = seen.times.last() {
                     let mut at = *t0;
-                    for a in &p.scripts[0].acts {
+                    for a in &p.scripts.last().unwrap().acts {
                         match a {
                             Act::Wait(d) => at += *d,
                             Act::Send(b) => {
